@@ -27,8 +27,9 @@ func init() {
 
 func runC08(c *an.Ctx) {
 	p := c.P
-	fDag, fFile := p.Field(c07H, "FSNodeOverDag", "dag"), p.Field(c07H, "FSNodeOverDag", "file")
-	if !c.Need(fDag != nil && fFile != nil, "helpers.FSNodeOverDag fields dag,file") {
+	roles := c07ResolveRoles(c)
+	fDag, fFile := roles.fDag, roles.fFile
+	if !c.Need(fDag != nil && fFile != nil, "helpers.FSNodeOverDag fields by type (*merkledag.ProtoNode, *unixfs.FSNode)") {
 		return
 	}
 	tfns := p.PkgFuncs(c07Tr)
@@ -37,15 +38,14 @@ func runC08(c *an.Ctx) {
 	}
 	addChild := an.M(c07H, "FSNodeOverDag", "AddChild")
 	removeChild := an.M(c07H, "FSNodeOverDag", "RemoveChild")
-	fillRec := p.Func(c07Tr, "", "fillTrickleRec")
-	if !c.Need(fillRec != nil, "trickle.fillTrickleRec") {
+	fillRec := roles.fillRec
+	if !c.Need(fillRec != nil, "trickle recursive filler (the self-recursive package-local function trickle.Layout calls)") {
 		return
 	}
-	depthRepeat, okDR := p.XBConst(c07Tr, "depthRepeat")
-	if !c.Need(okDR, "trickle.depthRepeat") {
+	if !c.Need(roles.depthRepeat != "", "trickle per-layer repeat constant (bound of the counter guarding the child-adding step of the filler)") {
 		return
 	}
-	drStr := depthRepeat.ExactString()
+	drStr := roles.depthRepeat
 
 	// ---- role discovery: the refill helper = function whose child-adding loop counts from an int parameter R up to depthRepeat
 	var refill *ssa.Function
@@ -466,8 +466,8 @@ func runC08(c *an.Ctx) {
 	c.Min("O1 Commit() calls in the append path", c07CommitAfterMutations(c, path, only), 1)
 
 	// ---- O4: constants and layer arguments
-	info := p.Func(c07Tr, "", "trickleDepthInfo")
-	if c.Need(info != nil, "trickle.trickleDepthInfo") {
+	info := roles.depthInfo
+	if c.Need(info != nil, "trickle depth inference (package-local func(*FSNodeOverDag, int) (int, int))") {
 		var quo, rem, sub *ssa.BinOp
 		an.Instrs(info, func(in ssa.Instruction) {
 			if b, ok := in.(*ssa.BinOp); ok {
@@ -509,10 +509,13 @@ func runC08(c *an.Ctx) {
 		c.Check(plus, "O4", "R-CONST", an.FuncName(info), "depth=quotient+1", info.Pos(), "layers are counted from 1", "trickleDepthInfo no longer adds 1 to the quotient (layers are 1-based in fillTrickleRec)")
 		nCall := 0
 		for _, fn := range path {
-			for _, call := range an.Calls(fn, an.M(c07Tr, "", "trickleDepthInfo")) {
+			for _, call := range an.AllCalls(fn) {
+				if an.Callee(call).Static != info {
+					continue
+				}
 				nCall++
 				_, ok := an.IsCallTo(call.Common().Args[1], an.M(c07H, "DagBuilderHelper", "Maxlinks"))
-				c.Check(ok, "O4", "R-FLOW", an.FuncName(fn), "trickleDepthInfo(_,db.Maxlinks())", call.Pos(), "depth inference uses the builder's Maxlinks()", "trickleDepthInfo is called with a width that is not db.Maxlinks(): depth inference and layer filling use different widths")
+				c.Check(ok, "O4", "R-FLOW", an.FuncName(fn), "depth-inference(_,db.Maxlinks())", call.Pos(), "depth inference uses the builder's Maxlinks()", "trickleDepthInfo is called with a width that is not db.Maxlinks(): depth inference and layer filling use different widths")
 			}
 		}
 		c.Min("O4 trickleDepthInfo calls", nCall, 1)
@@ -520,7 +523,7 @@ func runC08(c *an.Ctx) {
 	// layer-filling loops: fillTrickleRec(db, <fresh node>, <loop layer counter>) inside a depthRepeat-bounded loop
 	nFill := 0
 	for _, fn := range tfns {
-		for _, call := range an.Calls(fn, an.M(c07Tr, "", "fillTrickleRec")) {
+		for _, call := range an.AllCalls(fn) {
 			if an.Callee(call).Static != fillRec || !an.XBInCycle(call.Block()) {
 				continue
 			}
@@ -543,7 +546,7 @@ func runC08(c *an.Ctx) {
 					}
 				}
 			}
-			c.Check(!stepped, "O4", "R-FLOW", an.FuncName(fn), "fillTrickleRec(depth=layer)", call.Pos(),
+			c.Check(!stepped, "O4", "R-FLOW", an.FuncName(fn), "filler(depth=layer)", call.Pos(),
 				"the depth given to fillTrickleRec is the layer counter, not the repeat counter", "fillTrickleRec receives the repeat counter as maximum depth: sub-DAG depth varies inside one layer")
 		}
 	}
